@@ -662,7 +662,14 @@ class SyncObj(object):
                 try:
                     currentTermID = entry[2]
                     subscribers = self.__commandsWaitingCommit.pop(entry[1], [])
-                    res = self.__doApplyCommand(entry[0])
+                    try:
+                        res = self.__doApplyCommand(entry[0])
+                    except SyncObjExceptionWrongVer:
+                        raise
+                    except Exception as e:
+                        # The command is committed; every replica gets the same exception.
+                        logger.exception('replicated method raised an exception')
+                        res = e
                     for subscribeTermID, callback in subscribers:
                         if subscribeTermID == currentTermID:
                             callback(res, FAIL_REASON.SUCCESS)
